@@ -3,9 +3,15 @@ package main
 import (
 	"fmt"
 	"net"
+	"net/netip"
+	"os"
 	"strings"
 	"sync"
+	"syscall"
 	"time"
+
+	"github.com/uhppoted/uhppote-core/types"
+	"github.com/uhppoted/uhppote-core/uhppote"
 
 	"verif/harness/internal/cases"
 	"verif/harness/internal/rng"
@@ -113,6 +119,24 @@ func streamDrv(c *ctx) {
 		seed    uint64
 	}
 	jobs := []job{}
+	// deterministic part: on every path each class as the only datagram and followed by a valid one
+	// ("long" = a valid reply with 1 trailing byte, "long64" = with 64: a reader whose buffer is
+	// exactly 64 bytes would see either as a valid reply)
+	for _, path := range []string{"broadcast", "udp", "tcp"} {
+		for _, cl := range append([]string{"long64"}, dgClasses...) {
+			jobs = append(jobs, job{path, 0, []arrival{{8, cl}}, "none", r.U64()})
+			jobs = append(jobs, job{path, 0, []arrival{{8, cl}, {30, "valid"}}, "none", r.U64()})
+		}
+	}
+	// a continuous flood of irrelevant datagrams, closer together than the timeout, for three timeouts:
+	// the call must still end one timeout after it was made (no deadline is re-armed by a stray)
+	for _, cl := range []string{"wrong-serial", "short", "long"} {
+		flood := []arrival{}
+		for t := int(T.Milliseconds()) * 3 / 10; t < int(T.Milliseconds())*3; t += int(T.Milliseconds()) * 3 / 10 {
+			flood = append(flood, arrival{t, cl})
+		}
+		jobs = append(jobs, job{"broadcast", 0, flood, "none", r.U64()})
+	}
 	N := 40 * c.scale
 	for i := 0; i < N; i++ {
 		path := rng.Pick(r, "broadcast", "udp", "tcp")
@@ -259,6 +283,35 @@ func streamLeak(c *ctx) {
 		u.GetDevices()
 		u.GetDevices()
 		rs.close()
+		// the event listener: a start/stop cycle, and three starts that fail because the listen port is taken
+		{
+			port := freePort()
+			ul := uhppote.NewUHPPOTE(types.BindAddrFrom(netip.MustParseAddr("127.0.0.1"), 0), types.BroadcastAddr{},
+				types.ListenAddrFrom(netip.MustParseAddr("127.0.0.1"), uint16(port)), T, nil, false)
+			connected := make(chan struct{}, 1)
+			l := &cbListener{onConnected: func() { connected <- struct{}{} }, onEvent: func(*types.Status) {}, onError: func(error) {}}
+			q := make(chan os.Signal, 1)
+			done := make(chan error, 1)
+			go func() { done <- ul.Listen(l, q) }()
+			select {
+			case <-connected:
+			case <-time.After(time.Second):
+			}
+			q <- syscall.SIGINT
+			select {
+			case <-done:
+			case <-time.After(2 * time.Second):
+			}
+			squat, err := net.ListenUDP("udp4", &net.UDPAddr{IP: net.IPv4(127, 0, 0, 1), Port: port})
+			if err == nil {
+				for i := 0; i < 3; i++ {
+					l2 := &cbListener{onConnected: func() {}, onEvent: func(*types.Status) {}, onError: func(error) {}}
+					ul.Listen(l2, make(chan os.Signal, 1)) // returns an error at once
+				}
+				squat.Close()
+			}
+			n += 4
+		}
 		time.Sleep(3*T + 50*time.Millisecond) // stalled TCP responders finish
 		fd1, g1 := settle()
 		out := "restored"
@@ -269,5 +322,5 @@ func streamLeak(c *ctx) {
 	}
 	_ = net.IPv4zero
 	_ = cases.Hex
-	c.w.Notes = append(c.w.Notes, "leak stream: socket descriptors (/proc/self/fd) and goroutines before and after batches of 12 calls over all paths with silence / late / stray / refused / stalled behaviours plus two discoveries")
+	c.w.Notes = append(c.w.Notes, "leak stream: socket descriptors (/proc/self/fd) and goroutines before and after batches of 12 calls over all paths with silence / late / stray / refused / stalled behaviours plus two discoveries, one listen start/stop cycle and three listens that fail because the port is taken")
 }
